@@ -370,6 +370,15 @@ def execLine (s : Sess) (line : String) : StepOut :=
     | some (some e) => { s := s, lines := [okLine (showEnt e)] }
     | some none => badRef s
     | none => badOp s
+  else if cmd == "setgen" then
+    -- hook: set the generation of a pool slot (to reach the uint32 wrap-around quickly)
+    match runP (do let i ← pNat; let g ← pNat; pure (i, g)) args with
+    | some (i, g) =>
+      if i < w.pool.ents.size then
+        let sl := w.pool.ents.getD i default
+        { s := { s with w := { w with pool := { w.pool with ents := w.pool.ents.setIfInBounds i { sl with gen := g } } } }, lines := [okLine ""] }
+      else badRef s
+    | none => badOp s
   else if cmd == "relget" then
     match runP (do let e ← pEnt H; let r ← pComp B; pure (e, r)) args with
     | some (some e, r) => finish s (w.getRelation e r) (fun s t => (s, showEnt t))
